@@ -19,6 +19,9 @@ C13 = g(dict(snap=2, restore=2, add_dim=3, del_dim=2, add_attr=8, del_attr=4, re
 C17 = g(dict(rfbad=8, snap=3, restore=3, add_dim=1, del_dim=1, add_attr=3, del_attr=3, rename=1, disable=1, upd=6, rekey=6, prune=3, keygen=20, refresh=20, encaps=3, decaps=3, recaps=0, rt=12, mpk=1))
 C18 = g(dict(add_dim=1, del_dim=2, add_attr=3, del_attr=5, rename=1, disable=8, upd=10, rekey=12, prune=8, keygen=8, refresh=6, encaps=14, decaps=10, recaps=22, rt=2, mpk=4))
 
+# C01/C02 dynamic part: everything that can change who opens what
+DYN = g(dict(snap=2, restore=2, add_dim=2, del_dim=2, add_attr=8, del_attr=8, rename=4, disable=2, upd=12, rekey=8, prune=3, keygen=10, refresh=10, encaps=14, decaps=20, recaps=2, rt=8, mpk=1))
+
 
 def static_history(rng, multibyte=False):
     """C01/C02: a structure is built (with some edits first so that ids are not 0..n-1), updated once, then only
@@ -34,8 +37,13 @@ def static_history(rng, multibyte=False):
             out.append(f"AT {x(d)} {x(a)} {rng.choice('001')} {aft}"); sim.dims[d].append(a)
     for _ in range(rng.randint(0, 3)):      # a few edits before the update
         d = rng.choice(list(sim.dims))
-        if sim.dims[d] and rng.random() < 0.5:
+        r = rng.random()
+        if sim.dims[d] and r < 0.35:
             a = rng.choice(sim.dims[d]); out.append(f'DT {x(d)} {x(a)}'); sim.dims[d].remove(a)
+        elif sim.dims[d] and r < 0.7:
+            # a rename (in a hierarchy the attribute must keep its rank)
+            a = rng.choice(sim.dims[d]); b = rng.choice(['g', 'h', 'k'] + names)
+            if b not in sim.dims[d]: out.append(f'RN {x(d)} {x(a)} {x(b)}'); sim.dims[d][sim.dims[d].index(a)] = b
         else:
             a = rng.choice(names + ['f'])
             if a not in sim.dims[d]: out.append(f"AT {x(d)} {x(a)} {rng.choice('01')} -"); sim.dims[d].append(a)
@@ -47,3 +55,50 @@ def static_history(rng, multibyte=False):
     for k in range(nk):
         for e in range(ne): out.append(f'DE {k} {e}')
     return out
+
+
+def identity_scenario(rng):
+    """Directed scenario for "an attribute is what it was when it was created": an attribute gets keys and an
+    encapsulation, is deleted (alone or with its dimension), the master key possibly goes through a serialization round
+    trip or a backup/restore, a NEW attribute is created (same or different name, any hint), and the old keys and
+    encapsulations meet the new attribute: the old key must not open what is encrypted for the newcomer, the refreshed
+    old key neither, the newcomer's hint must be honoured, and a key for the newcomer must not open the old encapsulation."""
+    x = hist.x
+    out = ['SETUP']; nmpk = 1; nusk = 0; nenc = 0
+    kind = rng.choice(['AA', 'AH']); out.append(f'{kind} {x("D")}')
+    base = rng.sample(['a', 'b', 'c'], rng.randint(1, 3))
+    for a in base: out.append(f"AT {x('D')} {x(a)} {rng.choice('01')} -")
+    other = rng.random() < 0.5
+    if other: out += [f"{rng.choice(['AA', 'AH'])} {x('S')}", f"AT {x('S')} {x('s')} {rng.choice('01')} -"]
+    victim = base[-1] if rng.random() < 0.7 else rng.choice(base)      # the last one created has the largest identifier
+    out.append('UPD'); nmpk += 1
+    pol = f'D::{victim}' + (' && S::s' if other and rng.random() < 0.4 else '')
+    out.append(f'KG {x(pol)}'); nusk += 1
+    if rng.random() < 0.5: out.append(f"KG {x('D::' + rng.choice(base))}"); nusk += 1
+    out.append(f'EN {nmpk - 1} {x(pol)}'); nenc += 1
+    if rng.random() < 0.4: out += [f'RK {x("D::" + victim)}', f"RF 0 {rng.choice('01')}"]; nmpk += 1
+    if rng.random() < 0.25 and not other: out += [f'DD {x("D")}', f'{kind} {x("D")}']; base = []
+    else: out.append(f'DT {x("D")} {x(victim)}'); base = [a for a in base if a != victim]
+    if rng.random() < 0.5: out.append('UPD'); nmpk += 1
+    trip = rng.choice(['RT MSK', 'RT MSK', 'SNAP', 'none', 'RT2'])
+    if trip == 'RT MSK': out.append('RT MSK')
+    elif trip == 'RT2': out += ['RT MSK', 'RT MSK']
+    elif trip == 'SNAP': out += ['SNAP', f"AT {x('D')} {x('t')} {rng.choice('01')} -", 'REST 0']
+    new = victim if rng.random() < 0.4 else 'n'
+    out.append(f"AT {x('D')} {x(new)} {rng.choice('01')} {x(rng.choice(base)) if base and kind == 'AH' and rng.random() < 0.5 else '-'}")
+    out.append('UPD'); nmpk += 1
+    if rng.random() < 0.3: out.append('RT MSK')
+    if rng.random() < 0.6: out.append(f"RF 0 {rng.choice('01')}")
+    npol = f'D::{new}'
+    out.append(f'EN {nmpk - 1} {x(npol)}'); nenc += 1
+    out.append(f'KG {x(npol)}'); nusk += 1
+    if rng.random() < 0.5: out.append(f"RF 0 {rng.choice('01')}")
+    out.append(f'RT USK {nusk - 1}')
+    for k in range(nusk):
+        for e in range(nenc): out.append(f'DE {k} {e}')
+    return out
+
+
+def with_scenarios(gen, share=0.15):
+    """mixes the directed identity scenarios into a random profile"""
+    return lambda rng: identity_scenario(rng) if rng.random() < share else gen(rng)
